@@ -9,7 +9,9 @@ package main
 // case and replayed), the returned summary, the state after, and the two read-backs.
 //
 // result line: status | t0 t1 r0..r7 err | state | summary | state | fetch | list     (numbers only)
-//   state   = nusers numposts.. nboards (total blob(dir) nfiles (blob(name) blob(content))*)*
+//   state   = nusers numposts.. nboards (total blob(dir) nfiles (blob(name) blob(content))*)* bbusystate (busystateb lastposttime)*
+//             (the last group: shared memory SetBTotal has no business with — Shm.BBusyState, and per scenario board
+//             Shm.BusyStateB / Shm.LastPostTime; op 3 puts them, and Shm.Total, into unusual but legal conditions)
 //   summary = present blob(aid) blob(filename) createtime mtime blob(owner) blob(fulltitle) money filemode blob(class) blob(realtitle) blob(idx)
 //   fetch   = err mtime blob(content)
 //   list    = err n newest blob(aid) blob(filename) blob(fulltitle) blob(owner)   (last entry of the newest page)
@@ -26,6 +28,7 @@ import (
 	"github.com/Ptt-official-app/go-pttbbs/cache"
 	"github.com/Ptt-official-app/go-pttbbs/cmbbs"
 	"github.com/Ptt-official-app/go-pttbbs/ptttype"
+	"github.com/Ptt-official-app/go-pttbbs/types"
 )
 
 type c09User struct {
@@ -120,7 +123,64 @@ func c09State(e *bbsEnv) []string {
 			out = append(out, c09Blob(c)...)
 		}
 	}
+	out = append(out, oi(int64(cache.Shm.Shm.BBusyState)))
+	for _, b := range c09Boards {
+		out = append(out, oi(int64(cache.Shm.Shm.BusyStateB[b.bid-1])), oi(int64(cache.Shm.Shm.LastPostTime[b.bid-1])))
+	}
 	return out
+}
+
+// c09SetEnv: op 3 | kb vb | (k_busyb v k_total v k_lastpost v) per scenario board
+//
+//	k = 0 leave, 1 set to v; total also: 2 = somebody lists the board (cache.GetBTotalWithRetry), 3 = index length + v;
+//	busystateb / lastposttime also: 3 = now + v. The listing (2) is done first, with the global flag clear, then the
+//	per-board values, then Shm.BBusyState — the state a loader / a ResetBoard that went away has left behind.
+func c09SetEnv(e *bbsEnv, args [][]string) {
+	if len(args) != 2+len(c09Boards) || len(args[1]) != 2 {
+		panic("badcase:env")
+	}
+	now := time.Now().Unix()
+	for i, b := range c09Boards {
+		g := args[2+i]
+		if len(g) != 6 {
+			panic("badcase:env")
+		}
+		if ai(g[2]) == 2 {
+			cache.Shm.Shm.BBusyState = 0
+			if _, err := cache.GetBTotalWithRetry(b.bid); err != nil {
+				panic(err)
+			}
+		}
+	}
+	for i, b := range c09Boards {
+		g := args[2+i]
+		switch ai(g[0]) {
+		case 1:
+			cache.Shm.Shm.BusyStateB[b.bid-1] = types.Time4(ai(g[1]))
+		case 3:
+			cache.Shm.Shm.BusyStateB[b.bid-1] = types.Time4(now + ai(g[1]))
+		}
+		switch ai(g[2]) {
+		case 1:
+			cache.Shm.Shm.Total[b.bid-1] = int32(ai(g[3]))
+		case 3:
+			st, err := os.Stat(filepath.Join(c09BoardDir(e, b), ".DIR"))
+			n := int64(0)
+			if err == nil {
+				n = st.Size() / int64(ptttype.FILE_HEADER_RAW_SZ)
+			}
+			cache.Shm.Shm.Total[b.bid-1] = int32(n + ai(g[3]))
+		}
+		switch ai(g[4]) {
+		case 1:
+			cache.Shm.Shm.LastPostTime[b.bid-1] = types.Time4(ai(g[5]))
+		case 3:
+			cache.Shm.Shm.LastPostTime[b.bid-1] = types.Time4(now + ai(g[5]))
+		}
+	}
+	if ai(args[1][0]) == 1 {
+		cache.Shm.Shm.BBusyState = int32(ai(args[1][1]))
+	}
 }
 
 func c09Lines(toks []string) [][]byte {
@@ -204,11 +264,16 @@ func init() {
 					if bid, err := cache.GetBid(id); err == nil && bid.IsValid() {
 						cache.Shm.Shm.Total[bid-1] = 0
 						cache.Shm.Shm.LastPostTime[bid-1] = 0
+						cache.Shm.Shm.BusyStateB[bid-1] = 0
 					}
 				}
+				cache.Shm.Shm.BBusyState = 0
 				must(copyFile(filepath.Join(env.repo, "ptt", "testcase", ".PASSWDS1"), filepath.Join(env.home, ".PASSWDS")))
 				os.Remove(filepath.Join(env.home, ".post"))
 				return ok()
+			case 3: // shared memory around the post path: see c09SetEnv
+				c09SetEnv(env, args)
+				return ok(c09State(env)...)
 			case 1: // 1 | ui bi seed [edge_us] | class | title | lines | ip
 				u := c09Users[ai(args[1][0])]
 				b := c09Boards[ai(args[1][1])]
